@@ -13,7 +13,8 @@ def random_graphs(seed, n):
     cases = []
     for _ in range(n):
         nf = r.randint(4, 7)
-        names = ["f%d" % i for i in range(nf)]
+        # long names: a dangling std::string with a short name hides behind the small-string buffer (these run on the ASan build)
+        names = ["include/graph/file_number_%d_of_this_case.theo" % i for i in range(nf)]
         fs = {}
         for f in names:
             items = []
@@ -24,13 +25,13 @@ def random_graphs(seed, n):
                 elif q < 0.85:
                     items.append({"k": "inc", "f": r.choice(names)})
                 elif q < 0.93:
-                    items.append({"k": "inc", "f": r.choice(["z", "y"])})
+                    items.append({"k": "inc", "f": r.choice(["absent/file/with/a/long/name/z.theo", "y"])})
                 else:
                     items.append({"k": "incbad"})
             if r.random() < 0.1:
                 items.append({"k": "incend"})
             fs[f] = items
-        cases.append({"fs": fs, "main": r.choice(names + ["z"])})
+        cases.append({"fs": fs, "main": r.choice(names + ["absent/file/with/a/long/name/z.theo"])})
     return cases
 
 
